@@ -2,6 +2,7 @@ import Tw.Model.ServerBrowse
 import Tw.Proofs.ServerBrowse
 import Tw.Proofs.ServerBrowseOrder
 import Tw.Proofs.ServerBrowseMerge
+import Tw.Proofs.ServerBrowseRepaired
 import Tw.Gen.Browse
 
 /-!
@@ -213,6 +214,31 @@ theorem repeated_first_part_is_harmless :
     witnessEx.result [0, 0, 1] = some witnessEx.completeInfo ∧
     witnessLegacy.result [0, 0, 1, 0] = some witnessLegacy.completeInfo := by
   decide
+
+/-! ### The hypothetical repair of D10 (statements about `mergeRepaired`, NOT about the code)
+
+`mergeRepaired` is `merge` plus the statement `self.received |= other.received` after the swap. The
+repository does not contain it (it would make the shipped test `parse_info_v6_ex` fail, see the D10
+record); these theorems only show that the missing mask update is the *only* obstacle to the full
+property. -/
+
+/-- `mergeRepaired` differs from the modelled `merge` in nothing but the mask of the accumulator -/
+theorem mergeRepaired_differs_only_in_mask (s o : PartialInfo) :
+    (mergeRepaired s o).1.info = (merge s o).1.info ∧ (mergeRepaired s o).2 = (merge s o).2 := by
+  unfold mergeRepaired merge
+  repeat' split
+  all_goals first | exact ⟨rfl, rfl⟩ | simp_all
+
+/-- With the mask update the full statement `C18_merge_full` holds (stated for `resultRepaired`, the
+fold of `mergeRepaired`): any order, any repetition, the result depends only on the set of parts. -/
+theorem C18_merge_full_holds_for_repaired_merge (f : Family) (hwf : f.WellFormed) (seq : List Nat)
+    (hne : seq ≠ []) (hr : ∀ i ∈ seq, i < f.size) :
+    f.resultRepaired seq = if f.Covers seq then some f.completeInfo else none :=
+  f.resultRepaired_spec hwf tie_get_info_requires_main seq hne hr
+
+example : witnessEx.resultRepaired [0, 1, 1] = some witnessEx.completeInfo ∧
+    witnessLegacy.resultRepaired [1, 0, 1, 1, 0] = some witnessLegacy.completeInfo ∧
+    witnessEx3.resultRepaired [0, 1, 1] = none := by decide
 
 -- non-vacuity: the hypotheses of `C18_merge_partial` are met by both concrete families, whose parts
 -- are what the parser returns for the datagrams of the corpus file, and the statement computes
